@@ -57,26 +57,31 @@ def run(prog):
         if val(t, (True, True)) is None:
             continue   # the computed / cached result
         n1 += 1
-        facts = [(strip(c), v != "0") for c, v, _, d in te.facts_at(pb)] if isinstance(pb, int) and pb >= 0 else []
+        # one fact list per way of reaching the return (`if is_false(a) || is_false(b) { return ⊥ }` has two)
+        ways = te.entry_guards(pb) if isinstance(pb, int) and pb >= 0 else [[]]
+        facts = []
         bad = None
         feasible = 0
-        for s in itertools.product([False, True], repeat=2):
-            ok = True
-            for c, truth in facts:
-                if not truth:
+        for way in ways:
+            wf = [(strip(c), v != "0") for c, v, _, d in way]
+            facts += [f for f in wf if f not in facts]
+            for s in itertools.product([False, True], repeat=2):
+                ok = True
+                for c, truth in wf:
+                    if not truth:
+                        continue      # `!is_true(a)` says a is not the constant, nothing about its value at a point
+                    if mir.is_call(c, "is_true"):
+                        ok = ok and val(c[2][-1], s) is True
+                    elif mir.is_call(c, "is_false"):
+                        ok = ok and val(c[2][-1], s) is False
+                    elif mir.is_call(c, "eq") or mir.is_call(c, "sdd_eq"):
+                        x, y = val(c[2][-2], s), val(c[2][-1], s)
+                        ok = ok and x is not None and y is not None and x == y
+                if not ok:
                     continue
-                if mir.is_call(c, "is_true"):
-                    ok = ok and val(c[2][-1], s) is True
-                elif mir.is_call(c, "is_false"):
-                    ok = ok and val(c[2][-1], s) is False
-                elif mir.is_call(c, "eq") or mir.is_call(c, "sdd_eq"):
-                    x, y = val(c[2][-2], s), val(c[2][-1], s)
-                    ok = ok and x is not None and y is not None and x == y
-            if not ok:
-                continue
-            feasible += 1
-            if val(t, s) != (s[0] and s[1]):
-                bad = s
+                feasible += 1
+                if val(t, s) != (s[0] and s[1]):
+                    bad = s
         key = "%s:SA1:%s" % (fn.npath, mir.stable(t, fn)[:30] + "@" + "&".join(show(c)[:24] for c, tr in facts if tr)[-60:])
         if feasible == 0:
             out.append(inst("SA", key, UNDECIDED, fn, None, "guards not interpretable"))
@@ -100,8 +105,10 @@ def run(prog):
         return (t[2], t[1]) if t[0] == "field" and t[1][0] in ("phi", "gamma") else (None, None)
     ia, pa = comp(A)
     ib, pb_ = comp(B)
+    shape_known = True
     if not (ia == "0" and ib == "1" and pa == pb_ and pa is not None):
-        errs.append("operands of the helpers are not the two components of one normalised pair")
+        errs.append("?operands of the helpers are not the two components of one normalised pair")
+        shape_known = False
     else:
         tuples = [strip(v) for _, v in pa[2]]
         forms = sorted(show(x) for x in tuples)
@@ -142,7 +149,7 @@ def run(prog):
         ("and_indep", [A, B, lca_t], lambda cs: fact_eq(cs, is_lca, lambda t: is_vi(t, A), False) and fact_eq(cs, is_lca, lambda t: is_vi(t, B), False), "lca is neither"),
     ]
     if not (mir.is_call(lca_t, "lca") and is_vi(lca_t[2][-2], A) and is_vi(lca_t[2][-1], B)):
-        out.append(inst("SA", "%s:SA2:lca" % fn.npath, VIOLATION, fn, None, "lca is not lca(index(A), index(B)): %s" % show(lca_t)[:80]))
+        out.append(inst("SA", "%s:SA2:lca" % fn.npath, VIOLATION if shape_known else UNDECIDED, fn, None, "lca is not lca(index(A), index(B)): %s" % show(lca_t)[:80]))
     else:
         out.append(inst("SA", "%s:SA2:lca" % fn.npath, OK, fn, None, "lca = lca(index(A), index(B))"))
     for name, want_args, guard, desc in table:
@@ -153,6 +160,6 @@ def run(prog):
             errs.append("%s is called with (%s)" % (name, ", ".join(show(x)[-28:] for x in got)))
         if not guard(cs):
             errs.append("%s is not reached under `%s`" % (name, desc))
-        out.append(inst("SA", "%s:SA2:%s" % (fn.npath, name), VIOLATION if errs else OK, fn, cs.line,
+        out.append(inst("SA", "%s:SA2:%s" % (fn.npath, name), (VIOLATION if shape_known else UNDECIDED) if errs else OK, fn, cs.line,
                         "; ".join(errs) if errs else "%s ↦ %s" % (desc, name)))
     return out
